@@ -38,9 +38,14 @@ def main():
         rc0, out0 = sh(f"/venv/bin/python -W ignore {demo}", cwd=wt, env=env, timeout=900)
         res["demo_on_clean"] = rc0
         rc, out = sh(f"git apply {os.path.abspath(os.path.join(src, 'patch.diff'))}", cwd=wt)
+        if rc != 0:  # /repo has moved on since the patch was written: fall back to a 3-way merge
+            rc, out = sh(f"git apply --3way {os.path.abspath(os.path.join(src, 'patch.diff'))}", cwd=wt)
+            res["applied_3way"] = True
         res["patch_applies"] = rc == 0
         if rc != 0:
             res["apply_error"] = out[-300:]
+        if res.get("applied_3way"):
+            res["rebased_patch"] = sh("git diff HEAD", cwd=wt)[1]
         rc1, out1 = sh(f"/venv/bin/python -W ignore {demo}", cwd=wt, env=env, timeout=900)
         res["demo_with_patch"] = rc1
         res["demo_with_patch_tail"] = out1[-400:]
@@ -67,6 +72,8 @@ def main():
         os.makedirs(dst, exist_ok=True)
         for f in ("patch.diff", "demo.py"):
             shutil.copy(os.path.join(src, f), os.path.join(dst, f))
+        if res.get("applied_3way"):
+            open(os.path.join(dst, "patch.diff"), "w").write(res.pop("rebased_patch", open(os.path.join(src, "patch.diff")).read()))
         meta["verification"] = res
         json.dump(meta, open(os.path.join(dst, "meta.json"), "w"), indent=1)
     print(json.dumps({"id": sid, **{k: res.get(k) for k in ("confirmed", "caught", "demo_on_clean", "demo_with_patch", "suite_passes", "patch_applies")},
